@@ -67,12 +67,20 @@ CONSTANTS
     NamedD, NamedP, \* keys that may be defined in the named environment on default / p1
     PkgD, PkgP,     \* keys that may be defined in the package default environment on default / p1
     Creatable,      \* environments that may exist in this run (subset of EnvIds); they start absent
+    Names,          \* the names under which the named environment is defined and selected.  A name is any text that is
+                    \*   not (ignoring case) 'none', 'environment' or ''; the explored names include pieces, prefixes and
+                    \*   extensions of those words (env, environ, ment, on, non, nonee, environment2 ...): a loose comparison
+                    \*   would take them for the special names.  Expected does not depend on the name.
+    Paths,          \* subset of {"primitive", "replicated"}: the driver builds the environment from the package as loaded
+                    \*   (primitive) and from the replicated configuration that tasks actually run with; Expected is the
+                    \*   same for both
     DLists,         \* the DEFAULTS lists explored: a set of sequences over {"BASE", "PATH", "IMP", "NOPE"}
     Family, Emit
 
-VARIABLES plat, sel, spell, interp, present, keys,
+VARIABLES nm,       \* the name of the named environment (chosen in Init)
+          plat, sel, spell, interp, present, keys,
           dl        \* [EnvIds -> sequence of names]: the DEFAULTS list of an environment that has the key DEFAULTS
-vars == <<plat, sel, spell, interp, present, keys, dl>>
+vars == <<nm, plat, sel, spell, interp, present, keys, dl>>
 
 EnvIds == {"named@default", "named@p1", "pkg@default", "pkg@p1"}
 Keys   == {"BASE", "PATH", "CH", "LD_LIBRARY_PATH", "EMQ", "LIBS", "DEFAULTS"}
@@ -162,24 +170,24 @@ ExpectedOf(pr, ks) == LET B == BaseOf(pr, ks) IN IF B.ok THEN [ok |-> TRUE, env 
 Expected == ExpectedOf(present, keys)
 
 ---------------------------------------------------------------------------
-Init == /\ plat \in Plats /\ sel \in Sels /\ spell \in Spells /\ interp \in Interps
+Init == /\ nm \in Names /\ plat \in Plats /\ sel \in Sels /\ spell \in Spells /\ interp \in Interps
         /\ present = {}
         /\ keys = [e \in EnvIds |-> {}]
         /\ dl = [e \in EnvIds |-> <<>>]
 
 Create(e) == /\ e \in Creatable /\ e \notin present
              /\ present' = present \cup {e}
-             /\ UNCHANGED <<plat, sel, spell, interp, keys, dl>>
+             /\ UNCHANGED <<nm, plat, sel, spell, interp, keys, dl>>
 
 AddKey(e, k) == /\ e \in present /\ k \in Allowed(e) /\ k \notin keys[e] /\ k # "DEFAULTS"
                 /\ keys' = [keys EXCEPT ![e] = @ \cup {k}]
-                /\ UNCHANGED <<plat, sel, spell, interp, present, dl>>
+                /\ UNCHANGED <<nm, plat, sel, spell, interp, present, dl>>
 
 (* the environment gets a DEFAULTS key with the list d (possibly empty) *)
 AddDefaults(e, d) == /\ e \in present /\ "DEFAULTS" \in Allowed(e) /\ "DEFAULTS" \notin keys[e]
                      /\ keys' = [keys EXCEPT ![e] = @ \cup {"DEFAULTS"}]
                      /\ dl' = [dl EXCEPT ![e] = d]
-                     /\ UNCHANGED <<plat, sel, spell, interp, present>>
+                     /\ UNCHANGED <<nm, plat, sel, spell, interp, present>>
 
 Next == \/ \E e \in {"named@default", "named@p1", "pkg@default", "pkg@p1"} : Create(e)
         \/ \E e \in {"named@default", "named@p1", "pkg@default", "pkg@p1"},
@@ -192,7 +200,8 @@ Spec == Init /\ [][Next]_vars
 (* Properties of C17 on the model.  They are written over (E, B) = (Expected, Base) so that TLC computes the      *)
 (* expected environment once per state (AllProps / CheckAndEmit); the zero-argument forms are for reading and for  *)
 (* naming the conjunct that fails.                                                                                 *)
-TypeOK == /\ plat \in {"default", "p1"} /\ sel \in AllSels /\ spell \in {"lower", "mixed"} /\ interp \in BOOLEAN
+TypeOK == /\ nm \in Names /\ Names \cap {"none", "environment", ""} = {} /\ Paths \subseteq {"primitive", "replicated"}
+          /\ plat \in {"default", "p1"} /\ sel \in AllSels /\ spell \in {"lower", "mixed"} /\ interp \in BOOLEAN
           /\ present \subseteq EnvIds /\ \A e \in EnvIds : keys[e] \subseteq Keys /\ (e \notin present => keys[e] = {})
           /\ \A e \in EnvIds : /\ \A i \in 1..Len(dl[e]) : dl[e][i] \in DefaultsNames
                                /\ ("DEFAULTS" \notin keys[e] => dl[e] = <<>>)
@@ -255,7 +264,7 @@ PlatformOverDefault == PlatformOverDefaultP(Expected, Base)
 OwnBeforeLaunch     == OwnBeforeLaunchP(Expected, Base)
 
 ---------------------------------------------------------------------------
-CaseP(E, B) == [family |-> Family, plat |-> plat, sel |-> sel, spell |-> spell, interp |-> interp,
+CaseP(E, B) == [family |-> Family, name |-> nm, paths |-> Paths, plat |-> plat, sel |-> sel, spell |-> spell, interp |-> interp,
                 envs |-> [e \in present |-> EnvFn(e)],
                 launch |-> Launch, sys |-> Sys,
                 class |-> (IF sel \in NoneSels THEN "none" ELSE IF sel \in NamedSels THEN "named" ELSE IF sel = "unknown" THEN "unknown"
